@@ -262,13 +262,15 @@ PROPS = {    "C01": {
              "quick": {"entry": "VerifHarness_C11_big", "flags": C12_FLAGS[:-1] + ["3000"], "sample_paths": 1,
                        "bounds": {"attempts": 1, "captured_output_len": "<= 100000 bytes, symbolic (crosses the 65536-byte pipe capacity)", "pipe_capacity": 65536}}},
             param_ob("C11", ["C11."], ["C11.params/positional-parameter-has-exactly-the-given-value", "C11.params/named-parameter-has-exactly-the-given-value"]),
+            {"name": "C11.see", "pkg": "./internal/dag/executor", "replay": "R1", "must_assert": ["C11.see/later-step-child-process-sees-the-captured-value"],
+             "quick": {"entry": "VerifHarness_C11_see", "flags": ["-unwind", "24"], "sample_paths": 2, "bounds": {"value_len": "<= 4 bytes (ASCII, no NUL)", "later_step_variables": "none | another name | the same name (DAG env block / named parameter)"}}},
             {"name": "C11.params-2", "pkg": "./internal/persistence/model", "replay": "R1", "label_prefixes": ["C11."], "must_assert": ["C11.params/positional-parameter-has-exactly-the-given-value"],
              "quick": {"entry": "VerifHarness_C11_paramsL1", "flags": PARAM_FLAGS, "sample_paths": 1, "bounds": {"parameters": 1, "value_len": "0..1"}},
              "thorough": {"entry": "VerifHarness_C11_params2x1", "flags": PARAM_FLAGS, "sample_paths": 2, "timeout_s": 3600, "bounds": {"parameters": 2, "value_len": "0..1 each"}}},
         ],
         "assumptions": C12_ASSUME + PARAM_ASSUME + ["os.Pipe: a write that would take the pipe beyond 65536 bytes blocks until a thread is reading the pipe to EOF (io.Copy), forever if none does; io.Copy from a pipe returns after the write end is closed"],
         "outside_claim": COMMON_OUTSIDE + ["parameter strings with more than one parameter, values longer than 3 bytes, backslashes / command substitution / variable expansion inside parameter values; parameters overridden at start (same parser, other entry)",
-                                           "visibility of the captured value to later steps' child processes (C11.see): not built", "C11.big decides termination only (content of a >64 KiB value is not compared)", "non-ASCII output"],
+                                           "C11.see starts after the capture (os.Setenv done, decided by C11.out); the inherited environment of the agent process is outside the model (os.Environ = variables set by the program); os/exec keeping the last duplicate is an assumption", "C11.big decides termination only (content of a >64 KiB value is not compared)", "non-ASCII output"],
     },
     "C12": {
         "obligations": [
